@@ -356,6 +356,9 @@ func genC19(g engine.G) *engine.Case {
 		}
 		if op.Op == "edgew" || op.Op == "edge" {
 			op.W = g.Int(0, 9)
+			if g.Pct(6) {
+				op.W = engine.Pick(g, []int{1<<31 - 1, 1 << 31, 3000000000, 1 << 36})
+			}
 		}
 		gh.Ops = append(gh.Ops, op)
 	}
